@@ -132,8 +132,8 @@ struct Global {
     std::vector<Event> events;
     uint32_t seq = 0;
     // replay queues per kind
-    std::vector<int32_t> q[5];
-    size_t qpos[5] = {0, 0, 0, 0, 0};
+    std::vector<int32_t> q[6];
+    size_t qpos[6] = {0, 0, 0, 0, 0, 0};
     std::vector<uint32_t> pct_points;
     int victims_left = 0;
     std::function<void(const Fatal&)> sink;
@@ -151,6 +151,7 @@ int kind_index(char k) {
         case 'P': return 1;
         case 'W': return 2;
         case 'J': return 3;
+        case 'F': return 5;
         default: return 4;
     }
 }
@@ -443,7 +444,7 @@ void reset_run(const Config& cfg) {
     G.decisions.clear();
     G.events.clear();
     G.seq = 0;
-    for (int k = 0; k < 5; k++) {
+    for (int k = 0; k < 6; k++) {
         G.q[k].clear();
         G.qpos[k] = 0;
     }
@@ -968,6 +969,19 @@ int pthread_create(pthread_t* th, const pthread_attr_t* attr, void* (*fn)(void*)
     {
         Ign ig;
         pre_op(me);
+        if (G.cfg.create_fail_rate > 0) {  // fault: thread creation fails once in a while (EAGAIN), as under resource pressure
+            int32_t v = 0;
+            if (G.cfg.replay) {
+                if (!scripted('F', v)) v = 0;
+            } else if (G.rng.chance(G.cfg.create_fail_rate)) {
+                v = 1;
+            }
+            record('F', v);
+            if (v) {
+                G.stats.create_failures++;
+                return EAGAIN;
+            }
+        }
         t = new_thread();
         t->fn = fn;
         t->arg = arg;
